@@ -7,6 +7,7 @@ pub mod text;
 pub mod gen_codepages;
 pub mod c08;
 pub mod c10;
+pub mod c11;
 pub mod c12;
 pub mod c13;
 pub mod c14;
